@@ -268,6 +268,7 @@ pub fn gen_cfg(i: usize) -> crate::progen::Cfg {
         vec_generics: true,
         dyn_generics: i % 4 == 0,
         generic_fn_values: false,
+        overlapping_impls: i % 4 < 2,
         ..Default::default()
     }
 }
